@@ -11,7 +11,7 @@ for ID in "$@"; do
   # validity of the seed
   A=$(echo "$OUT" | sed -n '/demo without patch/,/existing tests/p' | grep -c "test result: ok")
   B=$(echo "$OUT" | sed -n '/existing tests of/,/demo with patch/p' | grep -c "test result: ok")
-  C=$(echo "$OUT" | sed -n '/demo with patch/,/our checks/p' | grep -c "test result: FAILED")
+  C=$(echo "$OUT" | sed -n '/demo with patch/,/our checks/p' | grep -c "test result: FAILED\|\.\.\. FAILED")
   RC=$(echo "$OUT" | grep "^rc=" | tail -1)
   W=$(echo "$OUT" | grep -c "^VIOLATION.*replay=[^ ]*$")
   FIRST=$(echo "$OUT" | grep "^failed obligation" | head -1 | cut -c1-220)
